@@ -112,7 +112,7 @@ CHECKS = {
     },
     "C10": {
         "runs": [dict(STORAGE, entries=["H10MemStep"], bounds_quick={"recs": 2, "namelen": 3, "maxver": 9}, bounds_thorough={"recs": 2, "namelen": 4, "maxver": 99}),
-                 dict(pkg="./pkg/storage/driver", files=["pkg/storage/driver/h_c10_backends.go"], entries=["H10Backends"],
+                 dict(pkg="./pkg/storage/driver", files=["pkg/storage/driver/h_c10_backends.go"], entries=["H10Backends", "H10ReadModifyWrite"],
                       bounds_quick={"recs": 1, "maxver": 2, "labels": 4}, bounds_thorough={"recs": 2, "maxver": 3, "labels": 4})],
         "bounds": {}, "assumptions": [],
     },
@@ -121,7 +121,7 @@ CHECKS = {
             dict(STRVALS, entries=["H04SetScalar", "H04SetTyped", "H04SetNumeric", "H04SetEscapes", "H04SetList", "H04SetLiteral", "H04SetFrame"],
                  bounds_quick={"maxlen": 5, "numlen": 4}, bounds_thorough={"maxlen": 7, "numlen": 5}),
             dict(pkg="./pkg/cli/values", files=["pkg/cli/values/h_c04_flags.go"], entries=["H04Flags"], bounds_quick={"sources": 8, "modes": 3}, bounds_thorough={"sources": 8, "modes": 4}, optional_sites=["flags/m.b/highest-precedence-source"]),
-            dict(CHARTUTIL, entries=["H04Coalesce"], bounds_quick={"depth": 2, "slim": 1}, bounds_thorough={"depth": 2, "slim": 0}),
+            dict(CHARTUTIL, entries=["H04Coalesce", "H11Scope"], bounds_quick={"depth": 2, "slim": 1, "pdepth": 0}, bounds_thorough={"depth": 2, "slim": 0, "pdepth": 0}),
         ],
         "bounds": {"quick": "atoms 1-4 symbolic bytes a-z; list index 0-3; arbitrary-input frame harness: 0-5 symbolic bytes over the 15-symbol alphabet -ay01=,.[]{}\\ and space",
                    "thorough": "same, frame harness 0-7 bytes"},
